@@ -23,7 +23,18 @@ theorem resolve_registered (e : Env) (obj : Nat) (name : Path) (i : Nat)
   unfold resolveName at h
   cases h1 : expandName e obj name with
   | none => simp [h1] at h
-  | some p => simp only [h1] at h; exact ⟨p, h⟩
+  | some p =>
+    simp only [h1] at h
+    cases h2 : objFor e p with
+    | some o => simp only [h2] at h; injection h with h; subst h; exact ⟨p, h2⟩
+    | none =>
+      simp only [h2] at h
+      cases h3 : findObject e p with
+      | obj o => simp only [h3] at h; injection h with h; subst h; exact findObject_registered e p _ h3
+      | external => simp [h3] at h
+      | lookupError => simp [h3] at h
+      | indexError => simp [h3] at h
+      | crash => simp [h3] at h
 
 /-- **completeness, clause 1**: a name bound in a module by `from m import x [as y]` — i.e. the
 alias table maps `y` to the qualified name of a registered object and nothing in the module's
